@@ -66,29 +66,28 @@ LOGGER_TEXTS = ["""\
   name app.empty
 </logger>
 """, """\
+%define dir /tmp/
 <eventlog/>
 <logger one>
   level 25
   <logfile main>
     path ${dir}x.log
     when D
+    old-files 2
     interval 2
     delay on
     encoding utf-8
     arbitrary-fields true
     style safe-template
-    format ${asctime} ${message}
+    format $${asctime} $${message}
   </logfile>
-  %define dir /tmp/
   <syslog>
   </syslog>
   <win32-eventlog>
     appname App
   </win32-eventlog>
 </logger>
-""".replace("format ${asctime} ${message}", "format $${asctime} $${message}")
-    .replace("%define dir /tmp/\n", "").replace(
-        "<eventlog/>", "%define dir /tmp/\n<eventlog/>")]
+"""]
 
 MAPPING_SCHEMA = """\
 <schema>
@@ -355,9 +354,22 @@ def _load(ZConfig, schema, root):
     return cs.load_text(schema, text), text
 
 
+def _how(o0, o1):
+    if o0[0] == "ok" and o1[0] == "ok":
+        return "value-differs"
+    if o0[0] == "ok":
+        return "rejected-after-rewrite:" + type(o1[1]).__name__
+    return "accepted-after-rewrite"
+
+
+def _show(o):
+    return cs.brief(o) if o[0] != "ok" else ["ok", repr(o[1])]
+
+
 def check_tree(col, ZConfig, schema, sname, base, rng, ncomp, tag):
     o0, t0 = _load(ZConfig, schema, base)
     for _ in range(ncomp):
+        st = rng.getstate()
         k = rng.choice([1, 2, 3, 4, 5])
         tree = base.copy()
         steps = []
@@ -375,23 +387,28 @@ def check_tree(col, ZConfig, schema, sname, base, rng, ncomp, tag):
                  if col.evaluations % 2003 == 0 else None)
         if t1 == t0 or cs.same_outcome(o0, o1):
             continue
-        # localise: replay the composition step by step on a fresh copy
-        state = rng.getstate()
-        sig_kind = "+".join(sorted(set(steps)))
-        if len(set(steps)) > 1:
-            sig_kind = "composition"
-        if o0[0] == "ok" and o1[0] == "ok":
-            how = "value-differs"
-        elif o0[0] == "ok":
-            how = "rejected-after-rewrite:" + type(o1[1]).__name__
-        else:
-            how = "accepted-after-rewrite"
-        rng.setstate(state)
-        col.violation("C15:%s:%s" % (sig_kind, how),
-                      "outcome changed under layout rewrites %s" % steps,
-                      {"schema": sname, "original": t0, "rewritten": t1},
-                      cs.brief(o0) if o0[0] != "ok" else ["ok", repr(o0[1])],
-                      cs.brief(o1) if o1[0] != "ok" else ["ok", repr(o1[1])])
+        # localise: replay the same composition step by step and report the
+        # first single rewrite that changes the outcome
+        end = rng.getstate()
+        rng.setstate(st)
+        k = rng.choice([1, 2, 3, 4, 5])
+        tree = base.copy()
+        prev_t, culprit, on, tn = t0, "composition", o1, t1
+        for _ in range(k):
+            r = apply_rewrite(tree, rng.choice(REWRITES), rng)
+            if not r:
+                continue
+            o, t = _load(ZConfig, schema, tree)
+            if not cs.same_outcome(o0, o):
+                culprit, on, tn = r, o, t
+                break
+            prev_t = t
+        rng.setstate(end)
+        col.violation("C15:%s:%s" % (culprit, _how(o0, on)),
+                      "outcome changed under the layout rewrite %r (last "
+                      "step of a composition)" % culprit,
+                      {"schema": sname, "original": prev_t, "rewritten": tn},
+                      _show(o0), _show(on))
 
 
 def single_rewrites(col, ZConfig, schema, sname, base, rng, tag, reps):
@@ -449,8 +466,8 @@ def work(item):
             ci = lambda t: t != "intkeys"             # noqa: E731
         sname = kind
         base = cs.parse_tree(text, ci)
-        assert cs.load_text(schema, cs.tree_text(base))[0] == "ok", \
-            cs.brief(cs.load_text(schema, cs.tree_text(base)))
+        # (accepted on the unchanged tree; if a tree under test rejects it the
+        # relation below is still meaningful, so no assertion here)
         bases = [("valid", base)]
         for k in range(3):
             t = base.copy()
@@ -465,8 +482,8 @@ def work(item):
 def run(tier, seed):
     use_repo()
     quick = tier == "quick"
-    nseeds = 10 if quick else 60
-    ncomp = 50 if quick else 120
+    nseeds = 20 if quick else 80
+    ncomp = 100 if quick else 200
     items = []
     for si in range(len(cs.SCHEMAS)):
         for s in range(nseeds):
